@@ -32,8 +32,17 @@ use std::time::{Duration, Instant};
 const REDIRECT_TARGET: &str = "http://c19.invalid/target";
 const WARM_V4: &str = "127.0.0.77"; // never part of any blacklist: used only to warm the cache
 const ROUTE_TYPES: [&str; 4] = ["file", "directory", "proxy", "redirect"];
-const GARBAGE: [&str; 6] = ["unknown", "", "256.1.1.1", "1.2.3", "_hidden", "localhost"];
-const XFF_NAMES: [&str; 3] = ["X-Forwarded-For", "x-forwarded-for", "X-FORWARDED-FOR"];
+// entries that are not IP addresses: words, the empty entry, out-of-range / short dotted forms, and a listed
+// address written with digits of other scripts (fullwidth, Arabic-Indic, mathematical) or followed by a superscript
+const GARBAGE: [&str; 11] = ["unknown", "", "256.1.1.1", "1.2.3", "_hidden", "localhost",
+    "\u{ff11}\u{ff12}\u{ff17}.0.0.2", "\u{0661}\u{0662}\u{0667}.\u{0660}.\u{0660}.\u{0662}", "127.0.0.\u{1d7da}", "127.0.0.2\u{00b2}", "\u{2167}"];
+// the field name in the cases HTTP/1 clients, HTTP/2 gateways and hand-written tools use
+const XFF_NAMES: [&str; 6] = ["X-Forwarded-For", "x-forwarded-for", "X-FORWARDED-FOR", "x-Forwarded-for", "X-forwarded-FOR", "X-Forwarded-for"];
+// optional white space (RFC 7230 OWS) written after a comma / before a comma for an entry whose `sp` flag is set
+const OWS_LEAD: [&str; 5] = [" ", "  ", "\t", " \t", "\t "];
+const OWS_TRAIL: [&str; 3] = ["", " ", "\t"];
+// between the field name and the value
+const NAME_SEP: [&str; 4] = [": ", ":", ":   ", ":\t"];
 
 // ------------------------------------------------------------------------------------------------
 // sockets
@@ -171,15 +180,30 @@ struct Server {
     warmed: BTreeMap<String, bool>, // route type -> warm target available
 }
 
+/// textual spellings of the same IPv6 address: canonical, fully expanded, upper case with leading zeros, mixed
+/// case, the zero run compressed at another place or only partly, dotted-quad tail.  (IPv4: one spelling.)
 fn v6_forms(a: &str) -> Vec<String> {
     match a.parse::<IpAddr>() {
         Ok(IpAddr::V6(v6)) => {
             let s = v6.segments();
-            vec![
+            let hex = |x: &u16| format!("{:x}", x);
+            let mut out = vec![
                 a.to_string(),
-                s.iter().map(|x| format!("{:x}", x)).collect::<Vec<_>>().join(":"),
+                s.iter().map(hex).collect::<Vec<_>>().join(":"),
                 s.iter().map(|x| format!("{:04X}", x)).collect::<Vec<_>>().join(":"),
-            ]
+                s.iter().enumerate().map(|(i, x)| if i % 2 == 0 { format!("{:04x}", x) } else { format!("{:X}", x) }).collect::<Vec<_>>().join(":"),
+                format!("{}:{}.{}.{}.{}", s[..6].iter().map(hex).collect::<Vec<_>>().join(":"), s[6] >> 8, s[6] & 255, s[7] >> 8, s[7] & 255),
+            ];
+            // compress exactly ONE zero group (the first, the last), which is not where the canonical form puts `::`
+            let zeros: Vec<usize> = (0..8).filter(|i| s[*i] == 0).collect();
+            for z in [zeros.first(), zeros.last()].into_iter().flatten() {
+                let left = s[..*z].iter().map(hex).collect::<Vec<_>>().join(":");
+                let right = s[*z + 1..].iter().map(|x| format!("{:03x}", x)).collect::<Vec<_>>().join(":");
+                out.push(format!("{}::{}", left, right));
+            }
+            // every spelling must denote the same address (a check of this generator, not of the code under test)
+            out.retain(|f| f.parse::<IpAddr>().ok() == Some(IpAddr::V6(v6)));
+            out
         }
         _ => vec![a.to_string()],
     }
@@ -200,6 +224,45 @@ fn mapped_forms(a: &str) -> Vec<String> {
     }
 }
 
+/// The list as a file.  The list is a SET of addresses: order, duplicates, other spellings of the same address,
+/// padding entries that name nobody who ever connects or is forwarded, CRLF line ends and a missing final newline
+/// must not change any decision.  (load_list_file: one address per line, no comments, no blank lines.)
+fn blacklist_file(list: &[String], lm: bool, variant: usize) -> String {
+    let mut lines: Vec<String> = vec![];
+    for (i, a) in list.iter().enumerate() {
+        let forms = if lm { mapped_forms(a) } else { v6_forms(a) };
+        lines.push(forms[(variant + i) % forms.len()].clone());
+        if variant % 3 == 2 {
+            // duplicates, in another spelling where there is one
+            lines.push(forms[(variant + i + 1) % forms.len()].clone());
+            lines.push(forms[(variant + i) % forms.len()].clone());
+        }
+    }
+    if variant % 3 != 0 && !list.is_empty() {
+        // 45 resp. 70 padding entries from ranges no peer and no X-Forwarded-For entry of the harness uses; their
+        // textual and numeric orders differ (9.9.9.9 < 10.0.0.9 < 100.64.0.9 numerically, not as strings)
+        let n = if variant % 3 == 1 { 15 } else { 23 };
+        for i in 0..n {
+            lines.push(format!("10.0.{}.{}", i * 11 % 256, 255 - i));
+            lines.push(format!("{}.{}.{}.9", [9, 100, 2, 198, 203, 11][i % 6], [9, 64, 0, 51, 0, 200][i % 6], i));
+            lines.push(format!("2001:db8:ffff::{:x}", 0x9 + i * 257));
+        }
+        let mut r = Rng::new(variant as u64 + 17);
+        match variant % 4 {
+            0 => lines.sort(),                                   // textual order
+            1 => { lines.sort(); lines.reverse() }
+            2 => lines.sort_by_key(|l| l.parse::<IpAddr>().ok()), // numeric order
+            _ => { for i in (1..lines.len()).rev() { let j = r.below(i + 1); lines.swap(i, j); } }
+        }
+    }
+    let eol = if variant % 4 == 2 { "\r\n" } else { "\n" };
+    let mut out = lines.join(eol);
+    if variant % 2 == 0 && !lines.is_empty() {
+        out.push_str(eol);
+    }
+    out
+}
+
 impl Server {
     /// `bind_ip`: "127.0.0.1", "::1" or "::" (dual-stack: clients then connect to 127.0.0.1 and are seen by the
     /// server as ::ffff:127.x.y.z).  `variant` picks textual forms in the generated files.
@@ -210,13 +273,7 @@ impl Server {
         fs::create_dir_all(dir.join("www")).map_err(|e| e.to_string())?;
         fs::write(dir.join("file.txt"), "C19-FILE v0\n").map_err(|e| e.to_string())?;
         fs::write(dir.join("www").join("a.txt"), "C19-DIR v0\n").map_err(|e| e.to_string())?;
-        let mut bl = String::new();
-        for (i, a) in list.iter().enumerate() {
-            let forms = if lm { mapped_forms(a) } else { v6_forms(a) };
-            bl.push_str(&forms[(variant + i) % forms.len()]);
-            bl.push('\n');
-        }
-        fs::write(dir.join("blacklist.txt"), bl).map_err(|e| e.to_string())?;
+        fs::write(dir.join("blacklist.txt"), blacklist_file(list, lm, variant)).map_err(|e| e.to_string())?;
         let upstream = Upstream::start();
         let ip: IpAddr = bind_ip.parse().unwrap();
         for _attempt in 0..6 {
@@ -227,9 +284,12 @@ impl Server {
             // an empty list is given alternately as an empty file and as no `file` directive at all
             let blfile = if list.is_empty() && variant % 2 == 1 { String::new() } else { format!("    file \"{}\"\n", dir.join("blacklist.txt").display()) };
             let cache_sec = if cache { "  cache {\n    size 1M\n    time 3600\n  }\n" } else { "" };
+            // `block` is the default mode: every third block configuration leaves the directive out (file without mode);
+            // with an empty list the file directive may be missing (mode without file, see above)
+            let modeline = if mode == "block" && variant % 3 == 1 { String::new() } else { format!("    mode \"{}\"\n", mode) };
             let conf = format!(
-                "server {{\n  address \"{ip}\"\n  port {port}\n  threads 4\n  blacklist {{\n{blfile}    mode \"{mode}\"\n  }}\n  log {{\n    level \"error\"\n    console false\n  }}\n{cache_sec}  route /file/* {{\n    file \"{d}/file.txt\"\n  }}\n  route /dir/* {{\n    directory \"{d}/www\"\n  }}\n  route /redir/* {{\n    redirect \"{redir}\"\n  }}\n  route /proxy/* {{\n    proxy \"127.0.0.1:{up}\"\n  }}\n}}\n",
-                ip = bind_ip, port = port, blfile = blfile, mode = mode, cache_sec = cache_sec, d = dir.display(), redir = REDIRECT_TARGET, up = upstream.port
+                "server {{\n  address \"{ip}\"\n  port {port}\n  threads 4\n  blacklist {{\n{blfile}{modeline}  }}\n  log {{\n    level \"error\"\n    console false\n  }}\n{cache_sec}  route /file/* {{\n    file \"{d}/file.txt\"\n  }}\n  route /dir/* {{\n    directory \"{d}/www\"\n  }}\n  route /redir/* {{\n    redirect \"{redir}\"\n  }}\n  route /proxy/* {{\n    proxy \"127.0.0.1:{up}\"\n  }}\n}}\n",
+                ip = bind_ip, port = port, blfile = blfile, modeline = modeline, cache_sec = cache_sec, d = dir.display(), redir = REDIRECT_TARGET, up = upstream.port
             );
             let conf_path = dir.join("humphrey.conf");
             fs::write(&conf_path, conf).map_err(|e| e.to_string())?;
@@ -306,32 +366,52 @@ struct Obs {
 }
 
 fn render_xff(es: &[(String, bool, bool)], n: usize) -> String {
-    // (token, is_garbage, space)
+    // (token, is_garbage, optional white space around)
+    let all_garbage = !es.is_empty() && es.iter().all(|e| e.1);
     let mut out = String::new();
     for (i, (tok, garbage, sp)) in es.iter().enumerate() {
         if i > 0 {
             out.push(',');
         }
         if *sp && i > 0 {
-            out.push(' ');
+            out.push_str(OWS_LEAD[(n + i) % OWS_LEAD.len()]);
         }
         if *garbage {
-            out.push_str(GARBAGE[(n + i) % GARBAGE.len()]);
+            // every fourth all-garbage list consists of empty entries only: ``, `,`, `, ` - lone delimiters and blanks
+            out.push_str(if all_garbage && n % 4 == 0 { "" } else { GARBAGE[(n + i) % GARBAGE.len()] });
         } else {
             let forms = v6_forms(tok);
             out.push_str(&forms[(n + i) % forms.len()]);
+        }
+        if *sp && i > 0 && i + 1 < es.len() {
+            out.push_str(OWS_TRAIL[(n / 2 + i) % OWS_TRAIL.len()]);
         }
     }
     out
 }
 
-fn request_bytes(uri: &str, xff: Option<&str>, keep_alive: bool, n: usize) -> Vec<u8> {
+/// `xff2`: a second X-Forwarded-For line (random sessions only).  Every fifth request carries 30..90 other fields
+/// with the X-Forwarded-For line(s) somewhere among them.
+fn request_bytes(uri: &str, xff: Option<&str>, xff2: Option<&str>, keep_alive: bool, n: usize) -> Vec<u8> {
     let mut s = format!("GET {} HTTP/1.1\r\nHost: c19.test\r\n", uri);
     if n % 2 == 1 {
         s.push_str("User-Agent: c19-harness\r\nAccept: */*\r\n");
     }
+    let (before, between, after) = if n % 5 == 0 { (10 + n % 37, n % 7, 20 + n % 41) } else { (0, 0, 0) };
+    for i in 0..before {
+        s.push_str(&format!("X-Filler-{}: {}\r\n", i, "v".repeat(1 + i % 40)));
+    }
     if let Some(x) = xff {
-        s.push_str(&format!("{}: {}\r\n", XFF_NAMES[n % XFF_NAMES.len()], x));
+        s.push_str(&format!("{}{}{}\r\n", XFF_NAMES[n % XFF_NAMES.len()], NAME_SEP[(n / 3) % NAME_SEP.len()], x));
+    }
+    for i in 0..between {
+        s.push_str(&format!("X-Forwarded-Host: h{}.example\r\n", i));
+    }
+    if let Some(x) = xff2 {
+        s.push_str(&format!("{}{}{}\r\n", XFF_NAMES[(n / 2) % XFF_NAMES.len()], NAME_SEP[n % NAME_SEP.len()], x));
+    }
+    for i in 0..after {
+        s.push_str(&format!("X-Tail-{}: {}\r\n", i, i));
     }
     if keep_alive {
         s.push_str("Connection: keep-alive\r\n");
@@ -475,13 +555,17 @@ fn classify(rt: &str, o: &Obs, cur_ver: u64) -> (String, bool) {
 }
 
 /// One request on a fresh connection; the server closes after the response.
+/// A connection on which nothing arrives and which is not closed either is given 5 s, then the request is repeated
+/// with 25 s; only then is it the observation `Other:hang` (never a tool error: a server that neither answers nor
+/// closes is a server that does not do what the property says).
 fn one_shot(srv: &mut Server, src: IpAddr, rt: &str, uri: &str, xff: Option<&str>, n: usize) -> (String, bool, String) {
-    srv.stamp(rt, uri);
     let mut last = ("Other:connect".to_string(), false, String::new());
-    for attempt in 0..3 {
-        match connect_from(src, srv.addr, Duration::from_secs(5)) {
+    for attempt in 0..3u64 {
+        srv.stamp(rt, uri);
+        let wait = if attempt == 0 { 5 } else { 25 };
+        match connect_from(src, srv.addr, Duration::from_secs(wait)) {
             Ok(mut s) => {
-                let req = request_bytes(uri, xff, false, n);
+                let req = request_bytes(uri, xff, None, false, n);
                 let mut o;
                 if let Err(e) = s.write_all(&req) {
                     o = Obs { status: None, headers: vec![], body: vec![], nbytes: 0, err: format!("{:?}", e.kind()) };
@@ -495,9 +579,15 @@ fn one_shot(srv: &mut Server, src: IpAddr, rt: &str, uri: &str, xff: Option<&str
                     let mut lo = vec![];
                     o = read_response(&mut s, &mut lo, true);
                 }
-                let (res, fc) = classify(rt, &o, srv.ver);
+                let (mut res, fc) = classify(rt, &o, srv.ver);
                 let first = String::from_utf8_lossy(&o.body[..o.body.len().min(60)]).to_string();
                 let detail = format!("status={:?} err={} bytes={} body={:?}", o.status, o.err, o.nbytes, first);
+                if timed_out(&res) {
+                    if attempt == 0 {
+                        continue;
+                    }
+                    res = "Other:hang".to_string();
+                }
                 return (res, fc, detail);
             }
             Err(e) => {
@@ -509,9 +599,13 @@ fn one_shot(srv: &mut Server, src: IpAddr, rt: &str, uri: &str, xff: Option<&str
     last
 }
 
-/// observations that say nothing about the server's decision (tooling / timing)
+fn timed_out(res: &str) -> bool {
+    res == "Other:no-bytes-WouldBlock" || res == "Other:no-bytes-TimedOut"
+}
+
+/// observations that say nothing about the server's decision (the harness could not even connect)
 fn inconclusive(res: &str) -> bool {
-    res.starts_with("Other:connect") || res == "Other:no-bytes-WouldBlock" || res == "Other:no-bytes-TimedOut"
+    res.starts_with("Other:connect")
 }
 
 // ------------------------------------------------------------------------------------------------
@@ -601,6 +695,8 @@ struct Stats {
     mismatches: u64,
     skipped_no_v6: u64,
     skipped_no_dual: u64,
+    hangs: u64,
+    aborted_after_hangs: u64,
     rows_dual: u64,
     samples: Vec<Value>,
     first: Vec<Value>,
@@ -664,11 +760,20 @@ fn run_group(bin: &str, base: &Path, gi: usize, g: &Group, st: &mut Stats, have_
                 srv.warmed.insert(rt.to_string(), ok);
             }
         }
+        let mut hangs_here = 0;
         for line in lines {
+            if hangs_here >= 3 {
+                // three answers neither given nor refused within 30 s each: recorded as mismatches, no point in going on here
+                st.aborted_after_hangs += 1;
+                break;
+            }
             let peer_s = line["peer"].as_str().unwrap().to_string();
             let peer: IpAddr = peer_s.parse().map_err(|_| format!("bad peer {}", peer_s))?;
             let peer_listed = g.list.contains(&peer_s);
             for row in line["rows"].as_array().unwrap() {
+                if hangs_here >= 3 {
+                    break;
+                }
                 if bind_ip == "::" { st.rows_dual += 1 } else { st.rows += 1 }
                 let exp: Vec<String> = row["exp"].as_array().unwrap().iter().map(|x| x.as_str().unwrap().to_string()).collect();
                 let es = parse_es(row);
@@ -731,6 +836,10 @@ fn run_group(bin: &str, base: &Path, gi: usize, g: &Group, st: &mut Stats, have_
                             }
                         } else if got == "Served" && from_cache {
                             st.cold_served_from_cache += 1;
+                        }
+                        if got == "Other:hang" {
+                            st.hangs += 1;
+                            hangs_here += 1;
                         }
                         let ok = exp.iter().any(|e| *e == got);
                         if exp != ["Served"] {
@@ -845,6 +954,8 @@ fn replay(bin: &str, base: &Path, threads: usize) {
                 t.mismatches += st.mismatches;
                 t.skipped_no_v6 += st.skipped_no_v6;
                 t.skipped_no_dual += st.skipped_no_dual;
+                t.hangs += st.hangs;
+                t.aborted_after_hangs += st.aborted_after_hangs;
                 t.rows_dual += st.rows_dual;
                 for s in st.samples {
                     if t.samples.len() < 8 {
@@ -872,7 +983,7 @@ fn replay(bin: &str, base: &Path, threads: usize) {
         "cold_served_from_cache": t.cold_served_from_cache, "warm_unavailable": t.warm_unavailable,
         "upstream_hits": t.upstream_hits, "upstream_expected": t.upstream_expected, "mismatches": t.mismatches,
         "skipped_rows_no_ipv6": t.skipped_no_v6, "ipv6": have_v6,
-        "rows_dual_stack": t.rows_dual, "skipped_rows_no_dual_stack": t.skipped_no_dual, "dual_stack": have_dual, "alt_ipv6_for_warmup": alt_v6.map(|a| a.to_string()),
+        "rows_dual_stack": t.rows_dual, "skipped_rows_no_dual_stack": t.skipped_no_dual, "dual_stack": have_dual, "hangs": t.hangs, "instances_aborted_after_hangs": t.aborted_after_hangs, "alt_ipv6_for_warmup": alt_v6.map(|a| a.to_string()),
         "errors": errs, "samples": t.samples}));
 }
 
@@ -880,19 +991,19 @@ fn replay(bin: &str, base: &Path, threads: usize) {
 // random sessions -> event log for Trace_Blacklist
 // ------------------------------------------------------------------------------------------------
 
-fn ev(kind: &str, dual: bool, lm: bool, mode: &str, list: &[String], cache: bool, peer: &str, present: bool, es: &Value, rt: &str, uri: &str, res: &str, from_cache: bool, n: usize) -> Value {
+fn ev(kind: &str, dual: bool, lm: bool, mode: &str, list: &[String], cache: bool, peer: &str, present: bool, es: &Value, present2: bool, es2: &Value, rt: &str, uri: &str, res: &str, from_cache: bool, n: usize) -> Value {
     let mut v4: Vec<String> = list.iter().filter(|a| !a.contains(':')).cloned().collect();
     if !peer.is_empty() && !peer.contains(':') {
         v4.push(peer.to_string());
     }
-    if let Some(a) = es.as_array() {
+    for a in [es, es2].iter().filter_map(|x| x.as_array()) {
         for e in a {
             if e["k"] == 1 && !e["a"].as_str().unwrap_or(":").contains(':') {
                 v4.push(e["a"].as_str().unwrap().to_string());
             }
         }
     }
-    json!({"ev": kind, "dual": dual, "lm": lm, "v4": v4, "mode": mode, "list": list, "cache": cache, "peer": peer, "present": present, "es": es,
+    json!({"ev": kind, "dual": dual, "lm": lm, "v4": v4, "mode": mode, "list": list, "cache": cache, "peer": peer, "present": present, "es": es, "present2": present2, "es2": es2,
            "rt": rt, "uri": uri, "res": res, "fromCache": from_cache, "n": n})
 }
 
@@ -951,7 +1062,7 @@ fn random(bin: &str, base: &Path, sessions: usize, conns: usize) {
                 continue;
             }
             let dual = inst == 2;
-            out_line(&ev("cfg", dual, lm, mode, &list, cache, "", false, &empty, "", "", "", false, 0));
+            out_line(&ev("cfg", dual, lm, mode, &list, cache, "", false, &empty, false, &empty, "", "", "", false, 0));
             let srv: &mut Server = match inst {
                 0 => &mut s4,
                 1 => s6.as_mut().unwrap(),
@@ -963,20 +1074,45 @@ fn random(bin: &str, base: &Path, sessions: usize, conns: usize) {
                     "::1".into()
                 } else if rng.chance(1, 6) {
                     format!("127.{}.{}.{}", rng.range(0, 255), rng.range(0, 255), rng.range(1, 254))
+                } else if rng.chance(1, 8) {
+                    // the corners of 127/8
+                    rng.pick(&["127.0.0.255", "127.255.255.254", "127.0.1.0", "127.255.0.1", "127.1.1.1"]).to_string()
                 } else {
                     rng.pick(&v4_peers).to_string()
                 };
                 let peer: IpAddr = peer_s.parse().unwrap();
-                let mut stream = match connect_from(peer, srv.addr, Duration::from_secs(5)) {
+                // generous: an answer is normally there within a millisecond; only 30 s of silence is a hang
+                let mut stream = match connect_from(peer, srv.addr, Duration::from_secs(30)) {
                     Ok(s) => s,
                     Err(e) => {
                         eprintln!("connect from {} failed: {}", peer_s, e);
                         continue;
                     }
                 };
-                out_line(&ev("conn", dual, lm, mode, &list, cache, &peer_s, false, &empty, "", "", "", false, 0));
-                let nreq = rng.range(1, 4);
+                out_line(&ev("conn", dual, lm, mode, &list, cache, &peer_s, false, &empty, false, &empty, "", "", "", false, 0));
+                // mostly 1..4 requests on a connection, now and then a long kept-alive conversation
+                let nreq = if rng.chance(1, 25) { rng.range(20, 40) } else { rng.range(1, 4) };
                 let mut leftover = vec![];
+                let mut gen_list = |rng: &mut Rng, counter: usize, first_sp: bool| -> (Vec<(String, bool, bool)>, Value) {
+                    // mostly 1..4 entries, sometimes a long chain of 20..45 proxies
+                    let len = if rng.chance(1, 12) { rng.range(20, 45) } else { rng.range(1, 4) };
+                    let mut es: Vec<(String, bool, bool)> = vec![];
+                    for i in 0..len {
+                        let garbage = rng.chance(1, 4);
+                        let tok = if garbage { "g".to_string() } else if rng.chance(1, 8) { peer_s.clone() } else { rng.pick(&universe).to_string() };
+                        es.push((tok, garbage, (i > 0 || first_sp) && rng.chance(1, 2)));
+                    }
+                    let all_garbage = es.iter().all(|e| e.1);
+                    let j: Value = Value::Array(es.iter().enumerate().map(|(i, (tok, g, sp))| {
+                        if *g {
+                            let text = if all_garbage && counter % 4 == 0 { "" } else { GARBAGE[(counter + i) % GARBAGE.len()] };
+                            json!({"a": format!("g:{}", text), "sp": sp, "k": 0})
+                        } else {
+                            json!({"a": tok, "sp": sp, "k": 1})
+                        }
+                    }).collect());
+                    (es, j)
+                };
                 for k in 0..nreq {
                     counter += 1;
                     let rt = *rng.pick(&ROUTE_TYPES);
@@ -987,42 +1123,31 @@ fn random(bin: &str, base: &Path, sessions: usize, conns: usize) {
                         _ => format!("/redir/p{}", rng.below(3)),
                     };
                     let present = !rng.chance(1, 4);
-                    let mut es: Vec<(String, bool, bool)> = vec![];
-                    if present {
-                        for i in 0..rng.range(1, 4) {
-                            let garbage = rng.chance(1, 4);
-                            let tok = if garbage { "g".to_string() } else if rng.chance(1, 8) { peer_s.clone() } else { rng.pick(&universe).to_string() };
-                            es.push((tok, garbage, i > 0 && rng.chance(1, 2)));
-                        }
-                    }
+                    let (es, es_json) = if present { gen_list(&mut rng, counter, false) } else { (vec![], json!([])) };
+                    // a second X-Forwarded-For line in one request out of six that have a first one
+                    let present2 = present && rng.chance(1, 6);
+                    let (es2, es2_json) = if present2 { gen_list(&mut rng, counter / 2, false) } else { (vec![], json!([])) };
                     let xff_text = if present { Some(render_xff(&es, counter)) } else { None };
-                    let es_json: Value = Value::Array(es.iter().enumerate().map(|(i, (tok, g, sp))| {
-                        if *g {
-                            json!({"a": format!("g:{}", GARBAGE[(counter + i) % GARBAGE.len()]), "sp": sp, "k": 0})
-                        } else {
-                            json!({"a": tok, "sp": sp, "k": 1})
-                        }
-                    }).collect());
+                    let xff2_text = if present2 { Some(render_xff(&es2, counter / 2)) } else { None };
                     srv.stamp(rt, &uri);
-                    let req = request_bytes(&uri, xff_text.as_deref(), true, counter);
+                    let req = request_bytes(&uri, xff_text.as_deref(), xff2_text.as_deref(), true, counter);
                     let o = if let Err(e) = stream.write_all(&req) {
                         let o2 = read_response(&mut stream, &mut leftover, false);
                         if o2.nbytes > 0 { o2 } else { Obs { status: None, headers: vec![], body: vec![], nbytes: 0, err: format!("{:?}", e.kind()) } }
                     } else {
                         read_response(&mut stream, &mut leftover, false)
                     };
-                    let (res, fc) = classify(rt, &o, srv.ver);
-                    if inconclusive(&res) {
-                        eprintln!("inconclusive observation {} for peer {} route {}", res, peer_s, rt);
-                        std::process::exit(3);
+                    let (mut res, fc) = classify(rt, &o, srv.ver);
+                    if timed_out(&res) {
+                        res = "Other:hang".to_string();
                     }
-                    out_line(&ev("req", dual, lm, mode, &list, cache, &peer_s, present, &es_json, rt, &uri, &res, fc, k));
+                    out_line(&ev("req", dual, lm, mode, &list, cache, &peer_s, present, &es_json, present2, &es2_json, rt, &uri, &res, fc, k));
                     if res != "Served" && res != "Forbidden403" {
                         break;
                     }
                 }
                 drop(stream);
-                out_line(&ev("close", dual, lm, mode, &list, cache, &peer_s, false, &empty, "", "", "", false, 0));
+                out_line(&ev("close", dual, lm, mode, &list, cache, &peer_s, false, &empty, false, &empty, "", "", "", false, 0));
             }
         }
     }
